@@ -159,6 +159,11 @@ func sameTransactionAs(prev, m []byte) []byte {
 	return out
 }
 
+func unsupportedTransportParam(route string) bool {
+	l := strings.ToLower(route)
+	return strings.Contains(l, "transport=tls") || strings.Contains(l, "transport=sctp")
+}
+
 func sortInts(a []int) {
 	for i := 1; i < len(a); i++ {
 		for j := i; j > 0 && a[j] < a[j-1]; j-- {
@@ -214,6 +219,11 @@ func genFramedMessage(g *gen, small bool, big bool) []byte {
 	parts.Shuffle = g.chance(30)
 	if g.chance(25) {
 		parts.EOL = "\n"
+	}
+	if g.chance(6) {
+		// a message the proxy reads like any other and then has nowhere to send: its next hop asks for a transport
+		// the proxy does not speak. Its neighbours in the stream must not notice.
+		parts.Route = []sipwire.Header{{Name: "Route", Value: "<sip:10.3.0.1:5061;transport=" + g.pick("tls", "sctp", "TLS") + ";lr>"}}
 	}
 	if g.chance(25) {
 		parts.CLName = g.pick("l", "L", "content-length", "CONTENT-LENGTH", "Content-length")
@@ -330,8 +340,12 @@ func execFraming(t *testing.T, p *Plan) *Result {
 					w.K.Failures = append(w.K.Failures, "harness: generated stream does not parse: "+err.Error())
 					return
 				}
-				want = append(want, m)
 				rest = r2
+				if rt := m.Get("route"); len(rt) > 0 && unsupportedTransportParam(rt[0]) {
+					w.stat("probe:unroutable-message-inside-a-stream")
+					continue // read, and relayed nowhere (judged by C03); what follows it is owed as usual
+				}
+				want = append(want, m)
 			}
 			ids := map[string]int{}
 			for i, m := range want {
